@@ -3,7 +3,7 @@ return the canonical answer string."""
 from __future__ import annotations
 
 from adapters import *  # noqa: F401,F403
-from adapters import realize, realize_list, canon, Ranks
+from adapters import realize, realize_list, realize_attrval, canon, Ranks, Tag
 from wire import *  # noqa: F401,F403
 from wire import Toks, p_node, p_list, p_str, p_bool, es, ok_str, err_of, enode, enodes
 
@@ -100,3 +100,44 @@ def _load_plugins():
 
 
 _load_plugins()
+
+
+def realize_via(n, mode: str):
+    """realise a tag term adding its children through a particular public mutator
+    (ctor / append / extend / insert / nested / plus / iadd)"""
+    if n[0] != "tag":
+        return realize(n)
+    kids = [realize_via(c, mode) for c in n[4]]
+    if mode == "ctor":
+        t = Tag(n[1], *kids, _add_ws=n[2])
+    elif mode == "nested":
+        t = Tag(n[1], [kids[:1], (tuple(kids[1:]),)], _add_ws=n[2])
+    else:
+        t = Tag(n[1], _add_ws=n[2])
+        if mode == "append":
+            for k in kids:
+                t.append(k)
+        elif mode == "extend":
+            t.extend(kids)
+        elif mode == "insert":
+            for k in reversed(kids):
+                t.insert(0, k)
+        elif mode == "plus":
+            t.children = t.children + kids
+        elif mode == "radd":
+            t.children = kids + t.children
+        else:
+            raise ValueError(mode)
+    for key, v in n[3]:
+        dict.__setitem__(t.attrs, key, realize_attrval(v))
+    return t
+
+
+@op("render_tag_via")
+def _render_tag_via(t: Toks) -> str:
+    mode = t.next()
+    n = p_node(t)
+    indent = int(t.next())
+    eol = p_str(t)
+    obj = realize_via(n, mode)
+    return ok_str(obj.get_html_string(indent, eol))
